@@ -160,7 +160,7 @@ def _cg(
                 info = 0
                 break
             else:
-                pos = previous_gamma / (-curv) * (-j)
+                pos = pos - previous_gamma / (-curv) * d
                 info = 0
                 break
         alpha = previous_gamma / curv
